@@ -45,6 +45,13 @@ func awkValues() []any {
 	var nm map[string]int
 	var ns []any
 	var nerr error
+	freed := stk.And().Push("gone")
+	freed.Free()
+	pfreed := &freed
+	pzs := &stk.Stack{}
+	freedc := stk.Cond("k", stk.Eq, "v")
+	freedc.Free()
+	pfreedc := &freedc
 	one := 1
 	pone := &one
 	ppone := &pone
@@ -62,6 +69,7 @@ func awkValues() []any {
 		map[float64]int{math.NaN(): 1}, map[float64]string{math.NaN(): "x", 1: "y"}, // 52-53 NaN keys cannot be looked up
 		[]any{map[float64]int{math.NaN(): 1}}, struct{ M map[float64]int }{map[float64]int{math.NaN(): 2}}, // 54-55
 		sliceOp{"~", "custom"}, sliceOp{"", ""}, // 56-57 operators of an uncomparable Go type
+		&stk.Stack{}, pfreed, &pzs, &stk.Condition{}, pfreedc, // 58-62 non-nil pointers to zero / freed instances
 	}
 }
 
@@ -103,6 +111,7 @@ func runAwkward(raw json.RawMessage) (res *Result, err error) {
 	s, c := awkRecv(in.Recv)
 	isCond := c.IsInit()
 	step := "call"
+	invariant := ""
 	panicked := ""
 	usable := false
 	func() {
@@ -148,9 +157,13 @@ func runAwkward(raw json.RawMessage) (res *Result, err error) {
 			}
 			_ = s.Marshal(v)
 		case "convstack":
-			_, _ = stk.ConvertStack(v)
+			if cs, ok := stk.ConvertStack(v); ok && !cs.IsInit() {
+				invariant = fmt.Sprintf("ConvertStack(%T) reports success for an uninitialised instance", v)
+			}
 		case "convcond":
-			_, _ = stk.ConvertCondition(v)
+			if cc, ok := stk.ConvertCondition(v); ok && !cc.IsInit() {
+				invariant = fmt.Sprintf("ConvertCondition(%T) reports success for an uninitialised instance", v)
+			}
 		case "cond_kw":
 			c = stk.Cond(v, stk.Eq, "x")
 			isCond = true
@@ -251,7 +264,7 @@ func runAwkward(raw json.RawMessage) (res *Result, err error) {
 		tags = append(tags, "panic")
 	}
 	return &Result{Coq: coq, Observed: map[string]any{"panic": panicked, "usable": usable, "value": fmt.Sprintf("%T", v)},
-		Tags: tags, Nontrivial: true}, nil
+		Tags: tags, Nontrivial: true, Invariant: invariant}, nil
 }
 
 func genAwkward(ctx *Ctx, emit func(any, string)) {
@@ -279,5 +292,5 @@ func genAwkward(ctx *Ctx, emit func(any, string)) {
 
 func init() {
 	register(&Family{Name: "awkward", Gen: genAwkward, Run: runAwkward,
-		Rule: "exhaustive: 24 methods taking `any`/interfaces (Push, Insert, Replace, IsEqual, Transfer, SetDelimiter, SetSymbol, SetEncap, Set/UnsetLogLevel, SetLogger, Marshal, ConvertStack, ConvertCondition, Cond (each argument), SetKeyword, SetExpression, SetOperator, Condition.IsEqual/SetEncap/Evaluate, Auxiliary.Set) x a catalogue of 58 awkward Go values (typed nils of depth 1-2, zero Stack/Condition/aliases, funcs, chans, maps, private-field structs, NaN, complex, uintptr, unsafe pointer, empty/nil slices, arrays, errors, stringers, pointers to pointers, bogus operators, NaN-keyed maps, operators of an uncomparable type) x receiver states; then a battery of observers (String, Unmarshal, Marshal of it, IsEqual self/copy both ways, Traverse, IsNesting, Less, Front, Back, Defrag, Reveal, Push/Pop). Observed: any panic (with the step), receiver still initialised and usable. every case is non-trivial; distinct = input hash"})
+		Rule: "exhaustive: 24 methods taking `any`/interfaces (Push, Insert, Replace, IsEqual, Transfer, SetDelimiter, SetSymbol, SetEncap, Set/UnsetLogLevel, SetLogger, Marshal, ConvertStack, ConvertCondition, Cond (each argument), SetKeyword, SetExpression, SetOperator, Condition.IsEqual/SetEncap/Evaluate, Auxiliary.Set) x a catalogue of 63 awkward Go values (typed nils of depth 1-2, zero Stack/Condition/aliases, funcs, chans, maps, private-field structs, NaN, complex, uintptr, unsafe pointer, empty/nil slices, arrays, errors, stringers, pointers to pointers, bogus operators, NaN-keyed maps, operators of an uncomparable type, non-nil pointers to zero and freed instances) x receiver states; then a battery of observers (String, Unmarshal, Marshal of it, IsEqual self/copy both ways, Traverse, IsNesting, Less, Front, Back, Defrag, Reveal, Push/Pop). Observed: any panic (with the step), receiver still initialised and usable. every case is non-trivial; distinct = input hash"})
 }
